@@ -919,6 +919,20 @@ func (r *cRun) checkEndOfGen(g int, gen *CGen, dropped int, final bool) {
 	if r.killedGen >= 0 {
 		return // after a kill the metrics of the dead generation are gone: conservation is judged by C04's delivery oracle
 	}
+	if disk {
+		// C04's accounting clause: what is not forwarded is accounted as dropped or corrupt - the chunks that are gone and the
+		// zero-length files found at start-up and removed
+		plantedGone := 0
+		for name := range r.planted {
+			if _, still := files[name]; r.startFiles[name] && !still {
+				plantedGone++
+			}
+		}
+		r.out.Obligations++
+		if lost+plantedGone > dropped {
+			r.note("C04", "unaccounted", "after generation %d: %d chunks are neither delivered nor on disk and %d zero-length files were removed, but dropped_chunks_total is %d (chunks %v)", g, lost, plantedGone, dropped, lostNums)
+		}
+	}
 	if !disk {
 		if lost > dropped {
 			r.note(prop, "silent-discard", "%d chunks are neither confirmed nor on disk after generation %d but only %d were counted as dropped: chunks %v", lost, g, dropped, lostNums)
